@@ -1,0 +1,46 @@
+//go:build verif
+
+// Package witnessx makes the witness implementation, its API types and its
+// cosignature verifier importable from outside this module's internal tree
+// (verification harness only).
+package witnessx
+
+import (
+	"github.com/google/certificate-transparency-go/internal/witness/api"
+	"github.com/google/certificate-transparency-go/internal/witness/cmd/witness/impl"
+	"github.com/google/certificate-transparency-go/internal/witness/cmd/witness/verifx"
+	"github.com/google/certificate-transparency-go/internal/witness/verifier"
+)
+
+type (
+	// Witness is the witness implementation.
+	Witness = verifx.Witness
+	// Opts configures a Witness.
+	Opts = verifx.Opts
+	// Server is the witness HTTP server.
+	Server = verifx.Server
+	// UpdateRequest is api.UpdateRequest.
+	UpdateRequest = api.UpdateRequest
+	// CosignedSTH is api.CosignedSTH.
+	CosignedSTH = api.CosignedSTH
+	// WitnessVerifier is verifier.WitnessVerifier.
+	WitnessVerifier = verifier.WitnessVerifier
+)
+
+// HTTP path constants of the witness API.
+const (
+	HTTPGetSTH  = api.HTTPGetSTH
+	HTTPUpdate  = api.HTTPUpdate
+	HTTPGetLogs = api.HTTPGetLogs
+)
+
+var (
+	// New creates a Witness.
+	New = verifx.New
+	// NewServer creates the HTTP server for a Witness.
+	NewServer = verifx.NewServer
+	// NewWitnessVerifier creates a cosignature verifier.
+	NewWitnessVerifier = verifier.NewWitnessVerifier
+	// LogIDFromPubKey derives the witness' log identifier from a PEM key.
+	LogIDFromPubKey = impl.LogIDFromPubKey
+)
